@@ -824,7 +824,8 @@ def swr_engine(pid, spec, tier, seed, workdir, res):
         t = left.split()
         obs = dict(kv.split('=', 1) for kv in re.findall(r'(\w+=(?:"(?:[^"\\]|\\.)*"|\S+))', right))
         exps.append((t[1:], obs, l.strip()))
-    q = ''.join('SWRX %s %s %s\n' % ('U' if t[0] == UNSET else t[0], 'N' if t[1] == '-1' else t[1], 'N' if t[2] == UNSET else t[2]) for t, _, _ in exps)
+    q = ''.join('SWRX %s %s %s %s\n' % ('U' if t[0] == UNSET else t[0], 'N' if t[1] == '-1' else t[1], 'N' if t[2] == UNSET else t[2],
+                                          'N' if t[5] == '0' else t[5]) for t, _, _ in exps)
     rc2, o, e = sh('./modelbin', cwd=MODEL, stdin=q)
     preds = [dict(kv.split('=', 1) for kv in x.split()[1:]) for x in o.splitlines() if x.startswith('P ')]
     if len(preds) != len(exps):
@@ -840,6 +841,8 @@ def swr_engine(pid, spec, tier, seed, workdir, res):
         kinds['cancel:' + ('none' if t[2] == UNSET else 'before' if t[2] == '-1' else 'after')] = kinds.get('cancel:' + ('none' if t[2] == UNSET else 'before' if t[2] == '-1' else 'after'), 0) + 1
         kinds['setting:' + ('unset' if t[0] == UNSET else 'nonpositive' if int(t[0]) <= 0 else 'positive')] = kinds.get('setting:' + ('unset' if t[0] == UNSET else 'nonpositive' if int(t[0]) <= 0 else 'positive'), 0) + 1
         kinds['outcome:' + t[3]] = kinds.get('outcome:' + t[3], 0) + 1
+        dk = 'caller-deadline:' + ('none' if t[5] == '0' else 'before-timeout' if p['deadline'] == t[5] else 'after-timeout')
+        kinds[dk] = kinds.get(dk, 0) + 1
         if len(res['samples']) < 4 and kinds['latency:' + lat_kind] <= 1:
             res['samples'].append(line[:400])
         # the property, on the implementation
@@ -867,6 +870,7 @@ def swr_engine(pid, spec, tier, seed, workdir, res):
                                               payload=dict(experiment=line, what=what, parameters=dict(swr_timeout_setting_ns=('unset' if t[0] == UNSET else int(t[0])),
                                                            origin_latency_ns=('never' if t[1] == '-1' else int(t[1])),
                                                            caller_context=('not cancelled' if t[2] == UNSET else 'cancelled before the call' if t[2] == '-1' else 'cancelled %s ns after the response was returned' % t[2]),
+                                                           caller_deadline_ns=('none' if t[5] == '0' else int(t[5])),
                                                            background_outcome=t[3], validators=int(t[4])))))
         # correspondence with the model's prediction
         if 'fg_latency' in obs:
@@ -875,6 +879,36 @@ def swr_engine(pid, spec, tier, seed, workdir, res):
                     res['mismatches'].append(dict(case='swr-' + '-'.join(t), exchange=0, why='%s: observed %s, model %s' % (k, obs.get(k), p[k]),
                                                   payload=dict(experiment=line, model=p)))
                     break
+
+
+def lateinval_engine(pid, spec, tier, seed, workdir, res):
+    """C07: an unsafe request that succeeds while a stale-while-revalidate background validation of the target is in
+    flight; the answer to the validation (decided by the origin before the unsafe request) arrives afterwards."""
+    known = load_known()
+    out = os.path.join(workdir, 'lateinval')
+    os.makedirs(out, exist_ok=True)
+    rc, log = run_harness('TestLateInvalidation', {}, out, timeout=900)
+    lp = os.path.join(out, 'lateinval.txt')
+    if rc != 0 or not os.path.exists(lp):
+        res['errors'].append('late-invalidation experiment failed to run: ' + log[-800:])
+        return
+    kinds = res['distribution']
+    for line in open(lp):
+        res['evaluations'] += 1
+        if line.split()[-1] == 'SKIP':
+            res['errors'].append('late-invalidation experiment did not reach the in-flight validation: ' + line.strip()[:300])
+            continue
+        res['nontrivial'].add(hashlib.sha1(line.encode()).hexdigest())
+        kinds['scenario:late-validation-after-invalidation'] = kinds.get('scenario:late-validation-after-invalidation', 0) + 1
+        if line.split()[-1] == 'BAD':
+            code = 'C07:late-validation-restores'
+            if not known_open(pid, code, known):
+                res['violations'].append(dict(kind='monitor', code=code, case='lateinval',
+                                              payload=dict(scenario=line.strip(), how='harness/lateinval_test.go TestLateInvalidation: GET (stored), GET in the stale-while-revalidate window with the '
+                                                           'answer to the background validation held at the origin, the unsafe request (2xx/3xx: invalidates), the answer released, GET: the response stored '
+                                                           'before the unsafe request is served again without validation; model: Props/C07.v C07_late_validation_discarded')))
+    if len(res['samples']) < 6:
+        res['samples'].append(open(lp).readline().strip()[:400])
 
 
 def build_race_harness():
